@@ -113,6 +113,11 @@ def build(repo, spec_dir, kf=False, canary=False):
     b.emit('use pg::*;\ntype State = NodeIndex<u32>;\ntype StateLabel = String;\ntype EdgeLabel = Grapheme;')
     b.emit('pub assume_specification [<Grapheme as Clone>::clone] (e: &Grapheme) -> (r: Grapheme) ensures r == *e;')
     b.emit('pub mod sp {\nuse super::*;'); b.emit(open(spec_dir + '/dfa.rs').read()); b.emit('}\nuse sp::*;')
+    # C10: which member of a class stands for it must not depend on the iteration order of the HashSet (per-process hash seeds)
+    b.emit('''pub uninterp spec fn set_min(s: Set<State>) -> State;      // the least / greatest element under NodeIndex's Ord: functions of the SET
+pub uninterp spec fn set_max(s: Set<State>) -> State;
+#[verifier::external_body] pub fn vx_set_min(s: &HashSet<State>) -> (r: &State) requires s@.len() > 0 ensures s@.contains(*r), *r == set_min(s@) { unimplemented!() }
+#[verifier::external_body] pub fn vx_set_max(s: &HashSet<State>) -> (r: &State) requires s@.len() > 0 ensures s@.contains(*r), *r == set_max(s@) { unimplemented!() }''')
     b.type_item('dfa.rs', r"^pub struct Dfa<'a> \{")
     b.type_item('cluster.rs', r"^pub struct GraphemeCluster<'a> \{")
     b.emit("impl<'a> GraphemeCluster<'a> {")
@@ -127,7 +132,13 @@ def build(repo, spec_dir, kf=False, canary=False):
     else:
         post = RECREATE_POST
         cl = [Clause('recreate.initial_exact_edges', post, ['C01', 'C02', 'C16'])]
-    b.verified_fn('dfa.rs', 'recreate_graph', within=D, requires=req, clauses=cl, props=['C07', 'C01', 'C02', 'C16'], loops=loops(kf), blocks=[tuple(x) + ((('recreate.finals_sound', ['C01', 'C16']) if kf else ('recreate.initial_exact_edges', ['C01', 'C02', 'C16'])),) for x in blocks(kf)], fname='Dfa::recreate_graph')
+    R31 = [('R31', r'\b(\w+)\.iter\(\)\.min\(\)\.unwrap\(\)', r'vx_set_min(\1)', 'HashSet::iter().min().unwrap(): the least element (requires a non-empty set)'),
+           ('R31', r'\b(\w+)\.iter\(\)\.max\(\)\.unwrap\(\)', r'vx_set_max(\1)', 'HashSet::iter().max().unwrap(): the greatest element (requires a non-empty set)')]
+    bls = [tuple(x) + ((('recreate.finals_sound', ['C01', 'C16']) if kf else ('recreate.initial_exact_edges', ['C01', 'C02', 'C16'])),) for x in blocks(kf)]
+    if not kf:
+        bls.append(('let new_source_state', 'before', '            proof { assert(old_source_state == set_min(equivalence_class@) || old_source_state == set_max(equivalence_class@)); }',
+                    ('recreate.representative_independent_of_hash_order', ['C10'])))
+    b.verified_fn('dfa.rs', 'recreate_graph', within=D, requires=req, clauses=cl, props=['C07', 'C01', 'C02', 'C16'], loops=loops(kf), blocks=bls, extra_rules=R31, fname='Dfa::recreate_graph')
     b.emit('}\n} // verus!\nimpl Clone for Grapheme { fn clone(&self) -> Self { unimplemented!() } }\nimpl PartialEq for Grapheme { fn eq(&self, o: &Self) -> bool { unimplemented!() } }\nimpl Eq for Grapheme {}\nimpl PartialOrd for Grapheme { fn partial_cmp(&self, o: &Self) -> Option<std::cmp::Ordering> { unimplemented!() } }\nimpl Ord for Grapheme { fn cmp(&self, o: &Self) -> std::cmp::Ordering { unimplemented!() } }\nfn main() {}')
     b.trusted += ['petgraph stand-in (StableGraph::{new, add_node, add_edge, neighbors, find_edge, edge_weight}, NodeIndex::index) with ghost nodes/edges; NodeIndex obeys the hash-key model',
                   'preconditions of recreate_graph (non-empty, pairwise disjoint, covering classes) are proved at its call site in unit minimize',
